@@ -135,4 +135,53 @@ MUTANTS += [
          "        for callback in callbacks:\n            try:",
          "        for callback in (callbacks if len(callbacks) < 3 else sorted(callbacks, key=lambda c: hash(str(getattr(c, '__self__', c))))):\n            try:")]),
 ]
+
+RES = 'onl/sim/resources/resource.py'
+BASE = 'onl/sim/resources/base.py'
+MUTANTS += [
+    # ---- C06
+    dict(prop='C06', name='preempt-on-equal-key', edits=[(RES,
+         "            if preempt.key > event.key:", "            if preempt.key >= event.key:")]),
+    dict(prop='C06', name='sort-key-without-time', edits=[(RES,
+         "        super().sort(key=lambda e: e.key)", "        super().sort(key=lambda e: (e.key[0], e.key[2]))")]),
+    dict(prop='C06', name='release-does-not-wake-queue', edits=[(BASE,
+         "        resource.get_queue.append(self)\n        self.callbacks.append(resource._trigger_put)",
+         "        resource.get_queue.append(self)\n        if len(resource.put_queue) < 2:\n            self.callbacks.append(resource._trigger_put)")]),
+    dict(prop='C06', name='capacity-off-by-one-when-capacity-3', edits=[(RES,
+         "        if len(self._users) < self.capacity:", "        if len(self._users) < self.capacity + (self.capacity > 2):")]),
+    dict(prop='C06', name='preempted-usage-since-of-preemptor', edits=[(RES,
+         "                        usage_since=preempt.usage_since,", "                        usage_since=event.time,")]),
+    dict(prop='C06', name='lifo-queue-for-plain-resource', edits=[(BASE,
+         "        resource.put_queue.append(self)\n        self.callbacks.append(resource._trigger_get)",
+         "        (resource.put_queue.insert(0, self) if type(resource).__name__ == 'Resource' and len(resource.put_queue) > 1 else resource.put_queue.append(self))\n        self.callbacks.append(resource._trigger_get)")]),
+    dict(prop='C06', name='cancel-removes-wrong-request', edits=[(BASE,
+         "        if not self.triggered:\n            self.resource.put_queue.remove(self)",
+         "        if not self.triggered:\n            self.resource.put_queue.pop(self.resource.put_queue.index(self) if len(self.resource.put_queue) < 3 else 0)")]),
+]
+
+CONT = 'onl/sim/resources/container.py'
+STORE = 'onl/sim/resources/store.py'
+MUTANTS += [
+    # ---- C07
+    dict(prop='C07', name='container-put-strict-greater', edits=[(CONT,
+         "        if self._capacity - self._level >= event.amount:", "        if self._capacity - self._level > event.amount:")]),
+    dict(prop='C07', name='container-get-strict-greater', edits=[(CONT,
+         "        if self._level >= event.amount:", "        if self._level > event.amount:")]),
+    dict(prop='C07', name='store-get-pops-last-when-3plus', edits=[(STORE,
+         "            event.succeed(self.items.pop(0))", "            event.succeed(self.items.pop(0 if len(self.items) < 3 else -1))")]),
+    dict(prop='C07', name='get-does-not-wake-puts', edits=[(BASE,
+         "        resource.get_queue.append(self)\n        self.callbacks.append(resource._trigger_put)",
+         "        resource.get_queue.append(self)\n        if not resource.put_queue:\n            self.callbacks.append(resource._trigger_put)")]),
+    dict(prop='C07', name='cancel-does-not-rescan-again', edits=[(BASE,
+         "            self.resource._trigger_get(None)\n", "            pass\n")]),
+    dict(prop='C07', name='filterstore-blocks-scan-on-mismatch', edits=[(STORE,
+         "                event.succeed(item)\n                break\n        return True",
+         "                event.succeed(item)\n                break\n        return event.triggered or len(self.items) < 2")]),
+    dict(prop='C07', name='trigger-scan-continues-past-blocked-head', edits=[(BASE,
+         "            if not proceed:\n                break\n\n    def _do_get",
+         "            if not proceed and len(self.put_queue) < 3:\n                break\n\n    def _do_get")]),
+    dict(prop='C07', name='store-capacity-off-by-one', edits=[(STORE,
+         "    def _do_put(self, event: StorePut) -> bool:\n        if len(self.items) < self._capacity:\n            self.items.append(event.item)",
+         "    def _do_put(self, event: StorePut) -> bool:\n        if len(self.items) <= self._capacity - (self._capacity < 3):\n            self.items.append(event.item)")]),
+]
 MUTANTS.sort(key=lambda m: (m['prop'], m['name']))
